@@ -522,6 +522,32 @@ def free_vars(core, env=frozenset(), out=None):
     head = core[0]
     if head == "quote":
         return out
+    if head == "quasiquote" and len(core) == 2:
+        # a template is data: only what it unquotes at its own level is code
+        def template(t, depth):
+            if isinstance(t, list) and t:
+                if t[0] == "unquote" and len(t) == 2:
+                    if depth == 0:
+                        free_vars(t[1], env, out)
+                    else:
+                        template(t[1], depth - 1)
+                    return
+                if t[0] == "quasiquote" and len(t) == 2:
+                    template(t[1], depth + 1)
+                    return
+                # (a . ,b) is read as (a . unquote b): a tail `unquote x`
+                if len(t) >= 3 and t[-3] == "." and t[-2] == "unquote":
+                    for y in t[:-3]:
+                        template(y, depth)
+                    if depth == 0:
+                        free_vars(t[-1], env, out)
+                    else:
+                        template(t[-1], depth - 1)
+                    return
+                for y in t:
+                    template(y, depth)
+        template(core[1], 0)
+        return out
     if isinstance(head, Sym) and head in ("lambda", "λ") and len(core) >= 2:
         formals = core[1]
         names = set()
@@ -825,3 +851,42 @@ def r01s(ctx, rep, rule="R01s"):
             "the expansion of %s introduces the private global%s %s: a program that defines %s for itself breaks the form" % (
                 text, "s" if len(used) > 1 else "", ", ".join(used), used[0]), [path])
     rep.floor(rule, "prelude procedures and template instances examined", n, 40)
+
+
+# procedures a derived form's expansion may call by name, with the reason it cannot do without
+TEMPLATE_PROCS = {
+    "case": {"memv": "membership of the key in a clause's data is a run-time search; case is specified through eqv? (R7RS 4.2.1)"},
+}
+
+
+def r01u(ctx, rep, rule="R01u"):
+    """a derived form does not lean on a procedure a program is free to rebind"""
+    rep.rule(rule, "a derived form means what it means whatever the program calls its variables: syntax-rules templates are not "
+             "hygienic here, so every procedure name a template introduces is looked up where the form is used — under the "
+             "program's own bindings. A parameter named `list`, `cons` or `not` (common names) must not change what delay or "
+             "unless do: the core expansion of each schematic instance introduces no reference to a library procedure, except "
+             "those in a small table of forms that cannot do without one (case calls memv). The promise of delay is built "
+             "with quasiquote (core syntax, compiled to CONS), the test of unless is an `if` with swapped arms.")
+    try:
+        macros, forms, path = load_macros(ctx["root"])
+    except (OSError, IndexError) as e:
+        rep.anchor_lost(rule, "marwood/prelude.scm unreadable: %s" % e)
+        return
+    user = {"x", "y", "f", "i", "loop", "k", "a", "b", "c"}
+    core_kw = {"if", "lambda", "set!", "define", "quote", "quasiquote", "unquote", "no-rule", "λ"}
+    n = 0
+    for nm, text in INSTANCES + [("delay", "(delay %N1)"), ("delay-force", "(delay-force %N1)")]:
+        try:
+            core = expand(S(text), macros)
+        except RecursionError:
+            continue
+        n += 1
+        form = nm.split(" ")[0].split(":")[0]
+        allowed = TEMPLATE_PROCS.get(form, {})
+        used = sorted(v for v in free_vars(core) if v not in user and v not in core_kw and v not in allowed and v not in PRIVATE_OK)
+        key = "%s|%s" % (rule, nm)
+        (rep.ok if not used else rep.fail)(
+            rule, key, "%s introduces no procedure reference%s" % (nm, (" beyond " + ", ".join(sorted(allowed))) if allowed else "") if not used else
+            "the expansion of %s calls %s by name: where the form is used under a binding of that name — a parameter called %s, say — "
+            "it calls the program's variable instead" % (text, ", ".join(used), used[0]), [path])
+    rep.floor(rule, "schematic instances of derived forms", n, 25)
